@@ -374,6 +374,91 @@ def classifier_contracts():
     return [a, b]
 
 
+# ---- classification: which exception objects the classifiers look at ------------------------------------------------------------
+# "raise any other error immediately": an error is classified by its own class and fields; the only other exception object that
+# may decide is its EXPLICIT cause (`raise X from Y`, e.__cause__), followed recursively.  The implicit context (an error raised
+# while another one is being handled, e.__context__) says nothing about the error itself: a permanent error raised inside the
+# handler of a transient one is permanent.
+#
+# Whole-function contracts: isinstance(e, C) is the uninterpreted predicate isinst_C(e), guarded by the input `plain` ("e is an
+# instance of none of the classes the classifier tests for"); the recursive call is the predicate T / L itself.  The errno table,
+# the socket constants and the message table are arbitrary (symbolic) inputs, so the statement holds for every content of them.
+
+CHAIN_TYPES = {
+    'e': 'U', '.status': 'int', '.body': 'str', '.error_codes': 'Array[U, bool]', '.message': 'str', '.strerror': 'str', '.errno': 'int',
+    '.os_error': 'U', '.args': 'Array[int, str]', '.__cause__': 'U', '.__context__': 'U', '.__suppress_context__': 'bool',
+}
+CHAIN_ATTRS_FORBIDDEN = ('__context__', '__suppress_context__', '__traceback__')
+CLASSIFIERS = {'is_transient_error': 'T', 'is_limited_retries_error': 'L'}
+
+
+def _isinstance_plain(eng, st, args, kw, node):
+    name = pyvc._dotted(node.args[1])
+    if name is None:
+        raise core.Undecided('isinstance against a computed class')
+    hit = eng.uf('isinst_' + name.replace('.', '_'), ['U'], 'bool')(to_z3(args[0], 'U'))
+    plain = st.env.get('plain')
+    return hit if plain is None else z3.And(z3.Not(plain), hit)
+
+
+def _fn_of(src, name):
+    import ast
+
+    for n in ast.parse(src).body:
+        if isinstance(n, (ast.FunctionDef, ast.AsyncFunctionDef)) and n.name == name:
+            return n
+    raise core.Undecided('anchor-moved: %s not found' % name)
+
+
+def _tail_after_class_tests(fn):
+    """(first, last) header texts of the statements that follow the last top-level `if` testing isinstance(...): what the
+    classifier does with an error none of whose class tests returned"""
+    import ast
+
+    last = -1
+    for i, s in enumerate(fn.body):
+        if isinstance(s, ast.If) and any(isinstance(c, ast.Call) and pyvc._dotted(c.func) == 'isinstance' for c in ast.walk(s.test)):
+            last = i
+    if last < 0 or last + 1 >= len(fn.body):
+        raise core.Undecided('anchor-moved: %s has no statements after its class tests' % fn.name)
+    return pyvc._header_text(fn.body[last + 1]), pyvc._header_text(fn.body[-1])
+
+
+def chain_contracts(src):
+    out = []
+    for qn, pred in CLASSIFIERS.items():
+        chain = '(e.__cause__ is not None and %s(e.__cause__))' % pred
+        common = dict(
+            path=PATH, qualname=qn, types=dict(CHAIN_TYPES), strings=True, spec_funcs={pred: (['U'], 'bool')}, raises={},
+            calls={'isinstance': _isinstance_plain, qn: _pred(pred)},
+            consts={'socket.EAI_AGAIN': z3.Int('EAI_AGAIN'), 'socket.EAI_NONAME': z3.Int('EAI_NONAME')},
+        )
+        tables = {'aiodocker': 'U', 'RETRYABLE_ERRNOS': 'Array[int, bool]', 'RETRY_ONCE_BAD_REQUEST_ERROR_MESSAGES': 'List[str]'}
+        out.append(Contract(
+            label='%s[plain error]' % qn, extra_inputs=dict(tables, plain='bool'),
+            ensures=[('an-error-of-no-tested-class-is-classified-by-its-explicit-cause-alone', 'implies(plain, result == %s)' % chain)],
+            canaries=[('a-plain-error-never-inherits-from-its-cause', 'implies(plain, result == False)'), ('every-error-is-plain', 'plain')],
+            **common))
+        first, last = _tail_after_class_tests(_fn_of(src, qn))
+        out.append(Contract(
+            label='%s[after the class tests]' % qn, fragment=(first, last), extra_inputs=dict(tables, e='U'),
+            ensures=[('only-the-explicit-cause-chain-is-followed', 'result == %s' % chain)],
+            canaries=[('the-cause-is-never-followed', 'result == False')],
+            **common))
+    return out
+
+
+def chain_scans(ctx, src):
+    """decided on the real AST: the three classifiers read none of the implicit-chain attributes of an exception"""
+    import ast
+
+    for qn in list(CLASSIFIERS) + ['is_rate_limit_error']:
+        fn = _fn_of(src, qn)
+        hits = sorted({'%s@L%d' % (n.attr, n.lineno) for n in ast.walk(fn) if isinstance(n, ast.Attribute) and n.attr in CHAIN_ATTRS_FORBIDDEN}
+                      | {'%r@L%d' % (n.value, n.lineno) for n in ast.walk(fn) if isinstance(n, ast.Constant) and n.value in CHAIN_ATTRS_FORBIDDEN})
+        ctx.add(core.decided('%s/scan/reads-no-implicit-exception-context' % qn, not hits, 'reads of __context__ / __suppress_context__ / __traceback__: %s' % (hits or 'none')))
+
+
 def native_witness(ctx):
     """concrete search on the real code, usable when the contracts no longer apply to a changed source (vc/check.py)"""
     return (lambda r1, r2: r1 if r1.get('confirmed') else r2)(core.run_native(REPLAY, {'search': True}), core.run_native(REPLAY_RETRY, {}))
@@ -381,6 +466,10 @@ def native_witness(ctx):
 
 def build(ctx):
     for c in classifier_contracts():
+        pyvc.Engine(ctx, c).run()
+    src = core.read_repo(PATH)
+    chain_scans(ctx, src)
+    for c in chain_contracts(src):
         pyvc.Engine(ctx, c).run()
     eng = pyvc.Engine(ctx, DELAY)
     eng.replayer = _delay_replayer(eng)
